@@ -1,6 +1,7 @@
 /- Term encoding of C14 cases and observations (see harness/pt/src/bin/c14.rs for the grammar). -/
 import Rbgp.Term
 import Rbgp.Policy.Basic
+import Rbgp.Policy.Spec
 namespace Rbgp.Policy.Codec
 open Rbgp Rbgp.Term Rbgp.Policy
 
@@ -306,31 +307,59 @@ def setOf? : Term → Option ((SetKind × String) × SetObj)
       if k = .comm ∨ k = .ext ∨ k = .large then pure ((k, n), .strs (← asListOf? asSym? l)) else none
   | _ => none
 
-def dstmtT (s : DStmt) : Term := tag "stmt" [sym s.name, list (s.conds.map condT), odispT s.disp, actionsT s.acts]
-def dstmtOf? : Term → Option DStmt
-  | .list [.atom "stmt", .atom n, .list cs, d, a] => do
-      pure ⟨n, ← cs.mapM condOf?, ← odispOf? d, ← actionsOf? a⟩
+/-- `=` = "exactly the objects the names resolve to in this listing" -/
+def heldSetsT (d : Dump) (st : DStmt) (objs : List SetObj) : Term :=
+  if Spec.expectedHeldSets d st == some objs then sym "=" else list (List.zipWith setT (Spec.setRefs st) objs)
+
+def dstmtT (d : Dump) (s : DStmt) (objs : List SetObj) : Term :=
+  tag "stmt" [sym s.name, list (s.conds.map condT), odispT s.disp, actionsT s.acts, heldSetsT d s objs]
+
+def heldSetsOf? (d : Dump) (st : DStmt) : Term → Option (List SetObj)
+  | .atom "=" => Spec.expectedHeldSets d st
+  | t => (asListOf? setOf? t).map (fun l => l.map (·.2))
+
+def dstmtOf? (d : Dump) : Term → Option (DStmt × List SetObj)
+  | .list [.atom "stmt", .atom n, .list cs, dd, a, h] => do
+      let st : DStmt := ⟨n, ← cs.mapM condOf?, ← odispOf? dd, ← actionsOf? a⟩
+      pure (st, ← heldSetsOf? d st h)
   | _ => none
 
-def dpolT (p : DPol) : Term := tag "pol" [sym p.name, list (p.stmts.map sym)]
-def dpolOf? : Term → Option DPol
-  | .list [.atom "pol", .atom n, ss] => (namesOf? ss).map (fun ss => ⟨n, ss⟩)
+def dpolT (d : Dump) (p : DPol) (hs : List (DStmt × List SetObj)) : Term :=
+  tag "pol" [sym p.name, list (p.stmts.map sym),
+    if Spec.expectedHeldStmts d p == some hs then sym "=" else list (hs.map (fun h => dstmtT d h.1 h.2))]
+
+def dpolOf? (d : Dump) : Term → Option (DPol × List (DStmt × List SetObj))
+  | .list [.atom "pol", .atom n, ss, h] => do
+      let p : DPol := ⟨n, ← namesOf? ss⟩
+      let hs ← (match h with
+        | .atom "=" => Spec.expectedHeldStmts d p
+        | t => asListOf? (dstmtOf? d) t)
+      pure (p, hs)
   | _ => none
 
 def dasgT : Option DAsg → Term
   | none => sym "none"
-  | some a => tag "asg" [sym a.name, dispT a.dflt, list (a.pols.map sym)]
+  | some a => tag "asg" [sym a.name, dispT a.dflt, list (a.pols.map sym), bool a.rpki]
 def dasgOf? : Term → Option (Option DAsg)
   | .atom "none" => some none
-  | .list [.atom "asg", .atom n, d, ps] => do pure (some ⟨n, ← dispOf? d, ← namesOf? ps⟩)
+  | .list [.atom "asg", .atom n, d, ps, r] => do pure (some ⟨n, ← dispOf? d, ← namesOf? ps, ← asBool? r⟩)
   | _ => none
 
+def zipWith3T {α β} (f : α → β → Term) : List α → List β → List Term
+  | a :: as, b :: bs => f a b :: zipWith3T f as bs
+  | _, _ => []
+
 def dumpT (d : Dump) : Term :=
-  tag "dump" [list (d.sets.map (fun s => setT s.1 s.2)), list (d.stmts.map dstmtT),
-              list (d.pols.map dpolT), dasgT d.imp, dasgT d.exp]
+  tag "dump" [list (d.sets.map (fun s => setT s.1 s.2)), list (zipWith3T (dstmtT d) d.stmts d.heldSets),
+              list (zipWith3T (dpolT d) d.pols d.heldStmts), dasgT d.imp, dasgT d.exp]
 def dumpOf? : Term → Option Dump
   | .list [.atom "dump", ss, st, ps, i, e] => do
-      pure ⟨← asListOf? setOf? ss, ← asListOf? dstmtOf? st, ← asListOf? dpolOf? ps, ← dasgOf? i, ← dasgOf? e⟩
+      let sets ← asListOf? setOf? ss
+      let d0 : Dump := ⟨sets, [], [], none, none, [], []⟩
+      let stmts ← asListOf? (dstmtOf? d0) st
+      let d1 : Dump := { d0 with stmts := stmts.map (·.1) }
+      let pols ← asListOf? (dpolOf? d1) ps
+      pure ⟨sets, stmts.map (·.1), pols.map (·.1), ← dasgOf? i, ← dasgOf? e, stmts.map (·.2), pols.map (·.2)⟩
   | _ => none
 
 /-! ## observations (`=` stands for "same as the input" / "same dump as the step before") -/
